@@ -255,13 +255,13 @@ class KeyConverter:
         try:
             public_key_numbers = private_key.public_key().public_numbers()
 
-            # Make sure that if bit length is not aligned to 8, full bytes will be used
-            x_byte_length = (public_key_numbers.x.bit_length() + 7) // 8
-            y_byte_length = (public_key_numbers.y.bit_length() + 7) // 8
+            # Coordinates are fixed-width fields of the curve size (rounded up to full bytes),
+            # so leading zero bytes of X or Y must be preserved
+            coordinate_byte_length = (private_key.curve.key_size + 7) // 8
 
             # Convert the numbers into bytes
-            x_bytes = public_key_numbers.x.to_bytes(length=x_byte_length, byteorder="big")
-            y_bytes = public_key_numbers.y.to_bytes(length=y_byte_length, byteorder="big")
+            x_bytes = public_key_numbers.x.to_bytes(length=coordinate_byte_length, byteorder="big")
+            y_bytes = public_key_numbers.y.to_bytes(length=coordinate_byte_length, byteorder="big")
 
             public_key_bytes = x_bytes + y_bytes
         except AttributeError:
